@@ -22,7 +22,10 @@ type Wit struct {
 }
 
 type Scenario struct {
-	Name      string
+	Name string
+	// Heavy: tens of thousands of constraints; monitors that run under the race detector
+	// issue prover calls for the first witness only (solves for all of them)
+	Heavy     bool
 	Circuit   func() frontend.Circuit
 	Witnesses func(rng *rand.Rand, p *big.Int, n int) []Wit
 }
@@ -237,5 +240,6 @@ func Scenarios() []Scenario {
 		{Name: "lookup(witness-dependent table)+rangecheck", Circuit: func() frontend.Circuit { return &lookupCircuit{} }, Witnesses: lookupWitnesses},
 		{Name: "wide-levels+hints", Circuit: func() frontend.Circuit { return &wideCircuit{} }, Witnesses: wideWitnesses},
 		specScenario(spec),
+		{Name: "gkr-subcircuit(8 instances)", Heavy: true, Circuit: func() frontend.Circuit { return &gkrCircuit{} }, Witnesses: gkrWitnesses},
 	}
 }
